@@ -350,7 +350,13 @@ pub fn check_world(spec: &RichSpec, l: &mut Local) -> Result<(), String> {
             // bytes), at a fresh address
             let orig = r.w.bank.get(&cur);
             if !orig.data.is_empty() {
-                for (what, owner) in [("owned by a program that accepts every instruction", crate::rt::obliging_program()), ("owned by the system program", SYS)] {
+                let lookalike = {
+                    // shares the last byte with the real owner (a careless comparison of program ids)
+                    let mut b = [0x42u8; 32];
+                    b[31] = orig.owner.to_bytes()[31];
+                    Pubkey::new_from_array(b)
+                };
+                for (what, owner) in [("owned by a program that accepts every instruction", crate::rt::obliging_program()), ("owned by the system program", SYS), ("owned by a program whose id ends like the real owner's", lookalike)] {
                     let mut wc = r.w.clone();
                     let forged = Pubkey::new_unique();
                     wc.bank.set(forged, crate::rt::Acct { owner, ..orig.clone() });
